@@ -229,7 +229,7 @@ def captured_logs(ctx, n_runs):
 def run(ctx):
     drv = common.LeanDriver()
     reqs, impl_outs, metas = [], [], []
-    n = ctx.scale(600, 12000)
+    n = ctx.scale(2000, 20000)
     for k in range(n):
         weighted = ctx.rng.random() < 0.8
         ops = gen_history(ctx, weighted)
